@@ -45,6 +45,9 @@ func tmpBase() string {
 func runHistory(sp spec, tmp string) (res *result, err error) {
 	defer func() {
 		if r := recover(); r != nil {
+			if os.Getenv("VERIF_DKG_DEBUG") != "" && res == nil {
+				fmt.Fprintf(os.Stderr, "history %d (%s) panic: %v\n", sp.id, sp.kind, r)
+			}
 			err = fmt.Errorf("history %d (%s): engine panic: %v", sp.id, sp.kind, r)
 		}
 	}()
